@@ -35,12 +35,9 @@ Proof.
   cbn [fix_b fixed andb] in Hs.
   destruct (a_lres (act s i)) as [d|] eqn:Hl.
   - start Hs. solve_inv HI.
-    all: idtac "PUB1 REMAINING". Show.
   - destruct (a_cancel (act s i)) eqn:Hc; start Hs.
     + solve_inv HI.
-      all: idtac "PUB2 REMAINING". Show.
     + solve_inv HI.
-      all: idtac "PUB3 REMAINING". Show.
 Qed.
 
 Lemma inv_tau_delete s i s' :
@@ -49,7 +46,6 @@ Proof.
   intros HI He Hpc Hs. unfold tau in Hs. rewrite Hpc in Hs.
   destruct (a_ref (act s i)) as [j|] eqn:Hr; [|discriminate]. own HI j i. start Hs.
   solve_inv HI.
-  all: idtac "DELETE REMAINING". Show.
 Qed.
 
 Lemma inv_tau_close s i s' :
@@ -61,6 +57,5 @@ Proof.
   { apply (c_lead_open _ _ HI i Hr). rewrite Hpc. reflexivity. }
   rewrite Hd in Hs. start Hs.
   solve_inv HI.
-  all: idtac "CLOSE REMAINING". Show.
 Qed.
 End S.
